@@ -393,17 +393,17 @@ fn record(evp: &str, sump: &str) {
             let a = rng.pick(&addrs).clone();
             let i = ids[rng.below(nid as u64) as usize].clone();
             let act = match rng.below(100) {
-                0..=17 => json!({"kind": "register", "k": keys[rng.below(nkey as u64) as usize], "id": i, "life": 1 + rng.below(6)}),
-                18..=29 => json!({"kind": "adv", "d": 1 + rng.below(3)}),
-                30..=34 => json!({"kind": "purge"}),
-                35..=49 => json!({"kind": "hs", "a": a, "id": i}),
-                50..=74 => {
+                0..=19 => json!({"kind": "register", "k": keys[rng.below(nkey as u64) as usize], "id": i, "life": 1 + rng.below(if rng.chance(1, 2) { 3 } else { 9 })}),
+                20..=27 => json!({"kind": "adv", "d": 1 + rng.below(3)}),
+                28..=31 => json!({"kind": "purge"}),
+                32..=45 => json!({"kind": "hs", "a": a, "id": i}),
+                46..=72 => {
                     // data from a client that holds a session if there is one at this address
                     let have: Vec<String> = world.clients.keys().filter(|(aa, _)| *aa == a).map(|(_, ii)| ii.clone()).collect();
                     if have.is_empty() { json!({"kind": "hs", "a": a, "id": i}) } else { json!({"kind": "in", "a": a, "sender": rng.pick(&have).clone()}) }
                 }
-                75..=79 => json!({"kind": "forged", "a": a}),
-                80..=96 => json!({"kind": "out", "a": a}),
+                73..=77 => json!({"kind": "forged", "a": a}),
+                78..=96 => json!({"kind": "out", "a": a}),
                 _ => json!({"kind": "timer"}),
             };
             let r = catch(|| {
@@ -438,6 +438,202 @@ fn record(evp: &str, sump: &str) {
         "handshakes_accepted": nhs, "blocked": nlapse})).unwrap()).unwrap();
 }
 
+// ------------------------------------------------------------------------------------------
+// gateway: the real TunnelGateway loop over loopback UDP, end to end (C08 + C09, real time)
+// ------------------------------------------------------------------------------------------
+
+#[derive(Default)]
+struct RecDispatcher {
+    got: Mutex<Vec<Vec<u8>>>,
+}
+impl snap_dataplane::dispatcher::Dispatcher for RecDispatcher {
+    fn try_dispatch(&self, packet: &sciparse::packet::view::ScionPacketView) {
+        use sciparse::core::view::View;
+        self.got.lock().unwrap().push(packet.as_slice().to_vec());
+    }
+}
+
+/// hand-encoded SCION/UDP packet: IPv4 hosts, empty path
+fn scion_udp(src: [u8; 4], dst: [u8; 4], sport: u16, dport: u16, pt: u8, payload: &[u8]) -> Vec<u8> {
+    let path: Vec<u8> = if pt == 2 { vec![0u8; 32] } else { vec![] };
+    let hdr = 12 + 16 + 8 + path.len();
+    let l4 = 8 + payload.len();
+    let mut b = vec![0u8, 0, 0, 1, 17, (hdr / 4) as u8];
+    b.extend_from_slice(&(l4 as u16).to_be_bytes());
+    b.extend_from_slice(&[pt, 0, 0, 0]);
+    b.extend_from_slice(&[0, 1, 0xff, 0, 0, 0, 1, 0x10]);
+    b.extend_from_slice(&[0, 1, 0xff, 0, 0, 0, 1, 0x10]);
+    b.extend_from_slice(&dst);
+    b.extend_from_slice(&src);
+    b.extend_from_slice(&path);
+    b.extend_from_slice(&sport.to_be_bytes());
+    b.extend_from_slice(&dport.to_be_bytes());
+    b.extend_from_slice(&(l4 as u16).to_be_bytes());
+    b.extend_from_slice(&[0, 0]);
+    b.extend_from_slice(payload);
+    b
+}
+
+fn gateway(outp: &str) {
+    use snap_dataplane::tunnel_gateway::{
+        NoopTunnelGatewayObserver, dispatcher::TunnelGatewayDispatcher, gateway::TunnelGateway, metrics::TunnelGatewayDispatcherMetrics,
+    };
+    use snap_dataplane::dispatcher::Dispatcher as _;
+    const LIFE: u64 = 8; // registration lifetime in seconds; observations keep >= 5 s from the expiry instant
+    let rt = tokio::runtime::Builder::new_multi_thread().worker_threads(2).enable_all().build().expect("runtime");
+    let result = rt.block_on(async move {
+        let mut log: Vec<Value> = vec![];
+        let reg = Arc::new(IdentityRegistry::new());
+        let sock = tokio::net::UdpSocket::bind("127.0.0.1:0").await.expect("bind");
+        let gw_addr = sock.local_addr().unwrap();
+        let server_secret = x25519::StaticSecret::from([0xA5u8; 32]);
+        let server_pub = x25519::PublicKey::from(&server_secret);
+        let disp = Arc::new(RecDispatcher::default());
+        let (tgd, rx) = TunnelGatewayDispatcher::new(TunnelGatewayDispatcherMetrics::new(&scion_sdk_observability::metrics::registry::MetricsRegistry::new()));
+        let gw = TunnelGateway::new(sock, server_secret, reg.clone(), disp.clone(), Arc::new(NoopTunnelGatewayObserver), rx);
+        let cancel = tokio_util::sync::CancellationToken::new();
+        let task = tokio::spawn(gw.start_server(cancel.clone()));
+
+        let csock = tokio::net::UdpSocket::bind("127.0.0.1:0").await.expect("bind client");
+        let caddr = csock.local_addr().unwrap();
+        let mk_client = |seed: u8| {
+            let mut s = [0x22u8; 32];
+            s[7] = seed;
+            let sk = x25519::StaticSecret::from(s);
+            let pk = x25519::PublicKey::from(&sk);
+            let rl = Arc::new(RateLimiter::new(&pk, 1_000_000));
+            (Tunn::new(sk, server_pub, None, None, seed as u32, rl, gw_addr), *pk.as_bytes())
+        };
+        let (mut tunn, id1) = mk_client(1);
+        let (_tunn2, id2) = mk_client(2);
+        let ip4 = [127u8, 0, 0, 1];
+
+        // receive one WireGuard packet from the gateway (None on timeout)
+        async fn recv(sock: &tokio::net::UdpSocket, ms: u64) -> Option<Vec<u8>> {
+            let mut buf = vec![0u8; 10000];
+            match tokio::time::timeout(Duration::from_millis(ms), sock.recv_from(&mut buf)).await {
+                Ok(Ok((n, _))) => Some(buf[..n].to_vec()),
+                _ => None,
+            }
+        }
+        // send a datagram through the tunnel and collect (dispatched count delta, decrypted replies)
+        macro_rules! through {
+            ($name:expr, $dg:expr, $wait:expr) => {{
+                let before = disp.got.lock().unwrap().len();
+                let out = tunn.handle_outgoing_packet(Packet::copy_from(&$dg[..]));
+                let mut sent = false;
+                if let Some(WgKind::Data(d)) = out {
+                    let bytes: Packet = d.into_bytes();
+                    let _ = csock.send_to(&bytes[..], gw_addr).await;
+                    sent = true;
+                }
+                let mut replies: Vec<Value> = vec![];
+                while let Some(b) = recv(&csock, $wait).await {
+                    match Packet::copy_from(&b[..]).try_into_wg() {
+                        Ok(k) => match tunn.handle_incoming_packet(k) {
+                            TunnResult::WriteToTunnel(p) => {
+                                let p = &p[..];
+                                let hl = if p.len() > 5 { p[5] as usize * 4 } else { 0 };
+                                let scmp = p.len() >= hl + 8 && p.len() > 4 && p[4] == 202;
+                                replies.push(json!({"len": p.len(), "next": if p.len() > 4 { p[4] } else { 0 },
+                                    "scmp_type": if scmp { json!(p[hl]) } else { Value::Null }, "scmp_code": if scmp { json!(p[hl + 1]) } else { Value::Null },
+                                    "head": p.iter().take(24).map(|x| format!("{x:02x}")).collect::<String>()}));
+                            }
+                            other => replies.push(json!({"wg": tr_name(&other)})),
+                        },
+                        Err(_) => replies.push(json!({"raw": b.len()})),
+                    }
+                }
+                let after = disp.got.lock().unwrap().len();
+                let intact = after > before && disp.got.lock().unwrap()[before] == $dg;
+                let o = json!({"step": $name, "sent": sent, "dispatched": after - before, "intact": intact, "replies": replies});
+                log.push(o.clone());
+                o
+            }};
+        }
+        // an outbound SCION packet for the client enters the gateway's outbound queue; did anything reach the client?
+        macro_rules! outbound {
+            ($name:expr) => {{
+                let pkt = scion_udp([10, 0, 0, 9], ip4, 555, caddr.port(), 0, b"to the client");
+                let queued = match {
+                    use sciparse::core::view::View;
+                    sciparse::packet::view::ScionPacketView::try_from_slice(&pkt)
+                } {
+                    Ok((v, _)) => {
+                        tgd.try_dispatch(v);
+                        true
+                    }
+                    Err(_) => false,
+                };
+                let mut delivered = 0;
+                let mut intact = false;
+                while let Some(b) = recv(&csock, 700).await {
+                    if let Ok(k) = Packet::copy_from(&b[..]).try_into_wg() {
+                        if let TunnResult::WriteToTunnel(p) = tunn.handle_incoming_packet(k) {
+                            delivered += 1;
+                            intact = p[..] == pkt[..];
+                        }
+                    }
+                }
+                let o = json!({"step": $name, "queued": queued, "delivered": delivered, "intact": intact});
+                log.push(o.clone());
+                o
+            }};
+        }
+
+        let t0 = Instant::now();
+        reg.register(t0, "k1", id1, Duration::from_secs(LIFE));
+        // handshake over UDP
+        let init = tunn.format_handshake_initiation(false).expect("init");
+        let ib: Packet = init.into_bytes();
+        let _ = csock.send_to(&ib[..], gw_addr).await;
+        let mut hs_ok = false;
+        if let Some(b) = recv(&csock, 3000).await {
+            if let Ok(k) = Packet::copy_from(&b[..]).try_into_wg() {
+                if let TunnResult::WriteToNetwork(ka) = tunn.handle_incoming_packet(k) {
+                    let kb = wg_bytes(ka);
+                    let _ = csock.send_to(&kb[..], gw_addr).await;
+                    hs_ok = true;
+                }
+            }
+        }
+        log.push(json!({"step": "handshake", "ok": hs_ok}));
+        tokio::time::sleep(Duration::from_millis(200)).await;
+        let good = scion_udp(ip4, [10, 0, 0, 9], caddr.port(), 555, 0, b"hello scion");
+        let spoof = scion_udp([10, 9, 9, 9], [10, 0, 0, 9], caddr.port(), 555, 0, b"spoofed");
+        let onehop = scion_udp(ip4, [10, 0, 0, 9], caddr.port(), 555, 2, b"one hop");
+        let garbage = vec![1u8, 2, 3, 4];
+        through!("authorised:good", good, 500);
+        through!("authorised:spoofed-source", spoof, 700);
+        through!("authorised:onehop-path", onehop, 700);
+        through!("authorised:garbage", garbage, 700);
+        outbound!("authorised:outbound");
+        let early = t0.elapsed().as_secs_f64();
+        // lapse: wait until >= 5 s after the expiry instant
+        let until = Duration::from_secs(LIFE + 5);
+        if t0.elapsed() < until {
+            tokio::time::sleep(until - t0.elapsed()).await;
+        }
+        through!("lapsed:good", good, 1200);
+        through!("lapsed:spoofed-source", spoof, 700);
+        outbound!("lapsed:outbound");
+        // the identity registers again: traffic resumes on the existing WireGuard session
+        let t1 = Instant::now();
+        reg.register(t1, "k1", id1, Duration::from_secs(LIFE));
+        through!("reregistered:good", good, 500);
+        outbound!("reregistered:outbound");
+        // superseded by another identity under the same token key
+        reg.register(Instant::now(), "k1", id2, Duration::from_secs(LIFE));
+        through!("superseded:good", good, 1200);
+        outbound!("superseded:outbound");
+        let late = t1.elapsed().as_secs_f64();
+        cancel.cancel();
+        let _ = tokio::time::timeout(Duration::from_secs(2), task).await;
+        json!({"life": LIFE, "authorised_phase_done_at_s": early, "second_phase_took_s": late, "log": log})
+    });
+    std::fs::write(outp, serde_json::to_string(&result).unwrap()).unwrap();
+}
+
 fn main() {
     let a: Vec<String> = std::env::args().collect();
     if std::env::var("VERIF_LOUD").is_err() {
@@ -446,8 +642,9 @@ fn main() {
     match a.get(1).map(|s| s.as_str()) {
         Some("replay") if a.len() == 4 => replay(&a[2], &a[3]),
         Some("record") if a.len() == 4 => record(&a[2], &a[3]),
+        Some("gateway") if a.len() == 3 => gateway(&a[2]),
         _ => {
-            eprintln!("usage: snaptunnel replay <hist.ndjson> <out.ndjson> | record <events.ndjson> <summary.json>");
+            eprintln!("usage: snaptunnel replay <hist.ndjson> <out.ndjson> | record <events.ndjson> <summary.json> | gateway <out.json>");
             std::process::exit(2);
         }
     }
